@@ -203,6 +203,9 @@ impl SubRule {
         let mut is_expt_match = false;
 
         for (bef_cont_states, aft_cont_states) in contexts {
+            // what an alternative binds before it fails must not be seen by the next alternative, nor by the output
+            let back_alphas = self.alphas.borrow().clone();
+            let back_varlbs = self.variables.borrow().clone();
             let mut bef_cont_states = bef_cont_states.clone();
             bef_cont_states.reverse();
             if (bef_cont_states.is_empty() || self.match_before_env(&bef_cont_states, &word_rev, &start_pos.reversed(word), false, true)?) 
@@ -210,8 +213,12 @@ impl SubRule {
                 is_cont_match = true;
                 break;
             }
+            *self.alphas.borrow_mut() = back_alphas;
+            *self.variables.borrow_mut() = back_varlbs;
         }
         for (bef_expt_states, aft_expt_states) in exceptions {
+            let back_alphas = self.alphas.borrow().clone();
+            let back_varlbs = self.variables.borrow().clone();
             let mut bef_expt_states = bef_expt_states.clone();
             bef_expt_states.reverse();
             if (bef_expt_states.is_empty() || self.match_before_env(&bef_expt_states, &word_rev, &start_pos.reversed(word), false, false)?) 
@@ -219,6 +226,8 @@ impl SubRule {
                 is_expt_match = true;
                 break;
             }
+            *self.alphas.borrow_mut() = back_alphas;
+            *self.variables.borrow_mut() = back_varlbs;
         }
         Ok(!is_expt_match && is_cont_match)
     }
